@@ -1,9 +1,13 @@
 package el
 
 import (
+	"fmt"
 	"regexp"
 	"strings"
 )
+
+// maxReplacements bounds the substitutions of one ReplaceAllContent call.
+const maxReplacements = 1000
 
 type Helper interface {
 	MatchString(s string) bool
@@ -37,10 +41,15 @@ func (e *elHelper) content(elr string) string {
 
 func (e *elHelper) ReplaceAllContent(s string, f func(content string) (string, error)) (string, error) {
 	var result = s
+	var replaced int
 	for true {
 		elr := e.FindString(result)
 		if elr == "" {
 			break
+		}
+		//a value that refers to itself (directly, through other keys, or growing) would never stop expanding
+		if replaced++; replaced > maxReplacements {
+			return "", fmt.Errorf("expand '%s': more than %d replacements, circular reference?", s, maxReplacements)
 		}
 		r, err := f(e.content(elr))
 		if err != nil {
